@@ -38,6 +38,8 @@ CLAIMED = {
    text="TLC checks the transcribed from_meta_num!/float/bool/char/String conversions against the declarative rule for all 24 integer targets x every boundary +-2 x every spelling, for the 8/16-bit targets over a concrete range, and for every scalar target x form x literal kind; each case is converted by the real implementation (exact value, spanned error, no panic); float values are compared bit for bit with str::parse on seeded texts including ones beside f32 rounding midpoints."),
  "C12": dict(engine="Wrappers", design_ref="4.3, 5/C12", technique="TLA+ spec (Wrappers.tla: implementers as terms, each wrapper overriding exactly the entry points of its impl block, abstract inner target) model-checked with TLC: transparency law for every abstract base target under every wrapper chain; replayed differentially (W<T> vs T on the same item) on real inner targets and probe implementers",
    text="TLC checks, for all 2048 abstract inner targets (any subset of the trait's entry points overridden, four acceptance predicates, with or without a value-for-absent) and every chain of one or two wrappers, that the outer conversion accepts exactly what the inner accepts, holds its value, fails with its error, with only the stated exceptions (Override on the bare word, the two Result forms never failing, absent-item rules); every chain x form is then instantiated over 13 real targets and 16 probe implementers and the real outer outcome is compared with the law applied to the real inner outcome (value, error, span, hooks called, SpannedValue range, WithOriginal copy, from_none)."),
+ "C13": dict(engine="SynTargets", design_ref="4.3, 5/C13", technique="TLA+ spec (SynTargets.tla: one row per syntax-valued target - what it accepts bare, which grammar re-parses a quoted value - under the group-transparent dispatch) model-checked with TLC against the declarative accept matrix over a fragment table computed with syn; every case converted by the real impl and compared token-for-token with the syn oracle",
+   text="TLC checks for 31 targets x 55 fragments x bare/quoted x 0..2 invisible groups that the transcribed dispatch accepts exactly the values of the target's syntax class (bare: the expression itself; quoted: the contents re-parsed by the same grammar; literal targets the literal itself) and rejects everything else; every case is converted by the real implementation and the printed value compared with what the user wrote or with syn's direct parse of the contents, errors must be spanned; the two expression helpers, Meta, PathList, vectors of literals and numeric arrays are checked against the clauses the property states for them."),
 }
 
 NOT_YET = "check not built yet (planned, see DESIGN.md section 5)"
